@@ -13,8 +13,36 @@ fn main() -> std::process::ExitCode {
     // invoked through a link named `jj` (harness/target/debug/jj -> jjverif-cli): behave as the jj binary
     let argv0 = std::env::args_os().next().unwrap_or_default();
     if std::path::Path::new(&argv0).file_name().and_then(|n| n.to_str()) == Some("jj") {
+        install_crash_hook();
         return jj_cli::cli_util::CliRunner::init().version("0.0.0-verif").run().into();
     }
     cli_main::main_with(props::dispatch, props::ALL);
     std::process::ExitCode::SUCCESS
+}
+
+/// Crash/trace hook for the real jj command line (hook H2, `jj_lib::verif_hooks`):
+///   JJ_VERIF_TRACE=<file>   append one line `<kind> <detail>` per step point reached;
+///   JJ_VERIF_CRASH_AT=<k>   abort the process (as `kill -9` would) when the k-th step point
+///                           (1-based, counted over this process) is about to be performed.
+fn install_crash_hook() {
+    use std::io::Write as _;
+    use std::sync::atomic::{AtomicU64, Ordering};
+    let trace = std::env::var("JJ_VERIF_TRACE").ok();
+    let crash_at: Option<u64> = std::env::var("JJ_VERIF_CRASH_AT").ok().and_then(|s| s.parse().ok());
+    if trace.is_none() && crash_at.is_none() {
+        return;
+    }
+    static COUNTER: AtomicU64 = AtomicU64::new(0);
+    jj_lib::verif_hooks::set_hook(Some(Box::new(move |kind, detail| {
+        let n = COUNTER.fetch_add(1, Ordering::SeqCst) + 1;
+        if let Some(path) = &trace {
+            if let Ok(mut f) = std::fs::OpenOptions::new().create(true).append(true).open(path) {
+                let _ = writeln!(f, "{n} {kind} {detail}");
+            }
+        }
+        if crash_at == Some(n) {
+            // no unwinding, no destructors, no flush: the closest in-process equivalent of SIGKILL
+            std::process::abort();
+        }
+    })));
 }
